@@ -169,7 +169,8 @@ class TypeEnv:
                 parts = split_generic('T<' + ty[1:-1] + '>')[1]
                 i = int(name)
                 return parts[i] if i < len(parts) else False
-            if base in _PRIMS or base.endswith('::felt::Felt') or ty.startswith('['):
+            if base in _PRIMS or base.endswith('::felt::Felt') or ty.startswith('[') \
+                    or base.startswith(('alloc::', 'core::', 'std::')):
                 return False
             return self.UNKNOWN
         if a['kind'] != 'struct':
@@ -677,16 +678,17 @@ class Flow:
                     continue
                 inlined = True
                 callee = self.db.fns[p]
-                res |= self._subst(s.ret, argl, bi)
+                aggs = self.arg_aggs(args)
+                res |= self._subst(s.ret, argl, bi, argaggs=aggs)
                 if s.ret_fields and not dest['p']:
-                    sub = {k: self._subst(v, argl, bi) for k, v in s.ret_fields.items()}
+                    sub = {k: self._subst(v, argl, bi, argaggs=aggs) for k, v in s.ret_fields.items()}
                     ch |= self._merge_agg(self.find(dest['l']), '', sub)
                 for k, leaves in s.outs.items():
                     if k - 1 < len(args):
                         pl = op_place(args[k - 1])
                         if pl is not None:
                             ch |= self._write(bi, {'l': pl['l'], 'p': ['*']},
-                                              self._subst(leaves, argl, bi), t.get('line'))
+                                              self._subst(leaves, argl, bi, argaggs=aggs), t.get('line'))
             if not inlined:
                 res = None
         if res is None:
@@ -774,7 +776,7 @@ class Flow:
             out |= self._subst(s.ret, actual, bi, env_arg=True)
         return out
 
-    def _subst(self, leaves, argl, bi, env_arg=False):
+    def _subst(self, leaves, argl, bi, env_arg=False, argaggs=None):
         out = set()
         for lf in leaves:
             m = _SUBST_RE.match(lf)
@@ -782,7 +784,22 @@ class Flow:
                 k = int(m.group(2))
                 suffix = m.group(3)
                 if k - 1 < len(argl):
-                    for x in argl[k - 1]:
+                    src = argl[k - 1]
+                    # precise field map of the actual argument, if it has one
+                    if argaggs is not None and k - 1 < len(argaggs) and argaggs[k - 1] and suffix.startswith('.'):
+                        parts = _SUFFIX_RE.findall(suffix)
+                        names = []
+                        for p_ in parts:
+                            if p_ == '[*]':
+                                break
+                            names.append(p_[1:])
+                        for n in range(len(names), 0, -1):
+                            key = '.'.join(names[:n])
+                            if key in argaggs[k - 1]:
+                                src = argaggs[k - 1][key]
+                                suffix = ''.join(parts[n:])
+                                break
+                    for x in src:
                         if env_arg and k == 1:
                             # captured variables: drop the capture field index (.0/.1) of the env
                             suffix2 = re.sub(r'^\.\d+', '', suffix)
@@ -799,6 +816,9 @@ class Flow:
                 continue
             out.add(lf)
         return out
+
+    def arg_aggs(self, args):
+        return [self._agg_of_operand(a) for a in args]
 
 
 # =============== guards (A6) ===============
@@ -1003,8 +1023,8 @@ def own_iter_sites(db, fn, fl):
                 t = fn.blocks[bi]['term']
                 if t['k'] != 'switch':
                     continue
-                if all(s2 in body for s2 in fn.succ(bi)):
-                    continue
+                if all(s2 in body or s2 not in ra for s2 in fn.succ(bi)):
+                    continue        # no accepting exit here (e.g. the error arm of `?`)
                 pl = op_place(t['op'])
                 if pl is None:
                     continue
@@ -1162,6 +1182,7 @@ def effective_guards(db, path, binding=None, depth=0, stack=(), opaque=None, cov
                 propagates = bool(uses) and not (kinds & {'swallowed', 'escaped'})
             cov = _covers(fn, bi, ra)
             argl = [fl.operand_leaves(a) for a in t.get('args', [])]
+            aggs = fl.arg_aggs(t.get('args', []))
             for p in targets:
                 if p in stack or p == path:
                     complete = False
@@ -1169,11 +1190,12 @@ def effective_guards(db, path, binding=None, depth=0, stack=(), opaque=None, cov
                 for g in effective_guards(db, p, binding, depth + 1, stack + (path,), opaque, 'all', sinks):
                     if g.reject != 'panic' and not propagates:
                         continue
-                    g2 = Guard(g.rel, fl._subst(g.lhs, argl, bi), fl._subst(g.rhs, argl, bi), g.fn, g.bb,
+                    g2 = Guard(g.rel, fl._subst(g.lhs, argl, bi, argaggs=aggs), fl._subst(g.rhs, argl, bi, argaggs=aggs), g.fn, g.bb,
                                g.line, g.reject, _combine(cov, g.covers))
                     g2.kind = getattr(g, 'kind', None)
                     g2.root = getattr(g, 'root', None)
                     g2.via = [f'{path}@{t["line"]}'] + g.via
+                    g2.top_bb = bi
                     base.append(g2)
         if complete or not stack:
             _EFF_CACHE[key] = base
